@@ -319,6 +319,9 @@ def make_chooser(spec):
         base = Uniform(spec['seed'])
     elif kind == 'replay':
         base = Replay(spec['trace'])
+    elif kind == 'pre':
+        from vf.sim.explore import Preemptions
+        base = Preemptions(spec['at'], spec.get('order', 0))
     else:
         raise ValueError(kind)
     if spec.get('stalls'):
